@@ -25,6 +25,8 @@ DEFINITE = (
     "unreachable code reached",
     "failed this postcondition",
     "cannot prove termination",
+    "fails to satisfy `callee.requires(args)`",
+    "unable to prove post-condition of closure",
     "could not prove termination",
 )
 INCONCLUSIVE = (
